@@ -239,4 +239,88 @@ theorem splitCommand_eq (auth : Bool) (c : Nat) (line : Str) :
     · simp [isCount]
   · simp [isCount]
 
+/-! ### the shape of a section-list function, with or without the counter sections -/
+
+/-- the optional counter section -/
+def cntSec (c : Nat) : Option Nat → List Section
+  | some i => [.count c i]
+  | none => []
+
+/-- what the refinement proof uses of `splitCommand` / `splitCore`: a command is one section
+    (possibly followed by `touch`), or the connection is unauthenticated and the sections are —
+    after an optional counter section — the three of `NICK` or the two of `PASS`/`USER`/`CAP END` -/
+structure SplitShape (split : Bool → Nat → Str → List Section) : Prop where
+  cases : ∀ auth c line,
+    split auth c line = [.whole c line] ∨
+    split auth c line = [.whole c line, .touch c] ∨
+    (auth = false ∧ ∃ n cnt, C18F.lineCmd line = some (.NICK n) ∧
+      split auth c line = cntSec c cnt ++ nickSections c n) ∨
+    (auth = false ∧ isNickLine line = false ∧ ∃ cmd cnt, C18F.lineCmd line = some cmd ∧
+      (∀ cn, ∃ cn', preludeConn cmd cn = some cn') ∧
+      split auth c line = cntSec c cnt ++ [.prelude c cmd, .authCommit c])
+
+/-- the section lists contain no counter section -/
+def NoCount (split : Bool → Nat → Str → List Section) : Prop :=
+  ∀ auth c line s, s ∈ split auth c line → isCount s = false
+
+theorem splitCore_noCount : NoCount splitCore := by
+  intro auth c line s hs
+  simp only [splitCore, List.mem_filter, Bool.not_eq_true'] at hs
+  exact hs.2
+
+theorem splitCore_shape : SplitShape splitCore := by
+  constructor
+  intro auth c line
+  rcases splitCore_cases auth c line with e | e | ⟨ha, n, hl, e⟩ | ⟨ha, hnl, cmd, hl, hpre, e⟩
+  · exact .inl e
+  · exact .inr (.inl e)
+  · exact .inr (.inr (.inl ⟨ha, n, none, hl, e⟩))
+  · exact .inr (.inr (.inr ⟨ha, hnl, cmd, none, hl, hpre, e⟩))
+
+theorem splitCommand_shape : SplitShape splitCommand := by
+  constructor
+  intro auth c line
+  cases hp : Message.parse line with
+  | error e => left; simp [splitCommand, hp]
+  | ok msg =>
+    cases hc : Command.fromMessage msg with
+    | error e => left; simp [splitCommand, hp, hc]
+    | ok cmd =>
+      have hl : C18F.lineCmd line = some cmd := by simp [C18F.lineCmd, hp, hc]
+      cases auth with
+      | true =>
+        have : splitCommand true c line = [.whole c line] ∨
+            splitCommand true c line = [.whole c line, .touch c] := by
+          simp only [splitCommand, hp, hc]
+          split <;> simp
+        rcases this with h | h
+        · exact .inl h
+        · exact .inr (.inl h)
+      | false =>
+        cases cmd with
+        | NICK n =>
+          refine .inr (.inr (.inl ⟨rfl, n, some (Command.NICK n).id.index, hl, ?_⟩))
+          simp [splitCommand, hp, hc, cntSec]
+        | PASS p =>
+          refine .inr (.inr (.inr ⟨rfl, ?_, _, some (Command.PASS p).id.index, hl,
+            fun cn => ⟨_, rfl⟩, ?_⟩))
+          · simp [isNickLine, hl]
+          · simp [splitCommand, hp, hc, cntSec]
+        | USER u a b r =>
+          refine .inr (.inr (.inr ⟨rfl, ?_, _, some (Command.USER u a b r).id.index, hl,
+            fun cn => ⟨_, rfl⟩, ?_⟩))
+          · simp [isNickLine, hl]
+          · simp [splitCommand, hp, hc, cntSec]
+        | CAP sub caps v =>
+          cases sub with
+          | END =>
+            refine .inr (.inr (.inr ⟨rfl, ?_, _, some (Command.CAP .END caps v).id.index, hl,
+              fun cn => ⟨_, rfl⟩, ?_⟩))
+            · simp [isNickLine, hl]
+            · simp [splitCommand, hp, hc, cntSec]
+          | _ => left; simp [splitCommand, hp, hc]
+        | PRIVMSG ts t => right; left; simp [splitCommand, hp, hc]
+        | NOTICE ts t => right; left; simp [splitCommand, hp, hc]
+        | _ => left; simp [splitCommand, hp, hc]
+
 end Irc.C18G
